@@ -1285,7 +1285,7 @@ fn extract(src: &Src, b: &Block, report: &mut Vec<serde_json::Value>, vacuity: b
                     let s = bs + map[idxs[0]];
                     let e = bs + map[idxs[0] + nf.len() - 1] + 1;
                     // drop automatic edits inside the replaced span
-                    col.edits.retain(|ed| !(ed.start >= s && ed.end <= e && ed.rule != "H"));
+                    col.edits.retain(|ed| !(ed.start >= s && ed.end <= e && ed.rule != "H") || (ed.start == ed.end && ed.start == s));
                     col.push(s, e, to.clone(), "RM");
                     manual.push(serde_json::json!({"rule":"RM","original": nf, "replacement": to}));
                 }
